@@ -87,3 +87,53 @@ SETUP_KEY = keys(b"\x1c")
 PRINTABLE = [bytes([c]) for c in range(0x20, 0x7f)]
 UNICODE_KEYS = ["é".encode(), "中".encode(), "\U0001F600".encode(), "é".encode(), "ü".encode()]
 ODD_BYTES = [b"\xff", b"\x80", b"\xc3", b"\x00", b"\x1b", b"\x7f", b"\xe4\xb8"]
+
+
+# ---------------------------------------------------------------- one-command experiments
+CLASS_CHARS = {"w": "a", "p": "-", "b": " ", "q": '"', "k": "(", "W": "中", "c": "é", "n": "\n", "d": "7", "K": ")"}
+
+
+def class_buffers(maxlen, classes="wpbqkWn"):
+    """all buffers up to maxlen over the class alphabet, by increasing length"""
+    import itertools
+    out = [""]
+    for n in range(1, maxlen + 1):
+        for t in itertools.product(classes, repeat=n):
+            out.append("".join(CLASS_CHARS[c] for c in t))
+    return out
+
+
+CURATED = ["foo bar baz", "foo  bar", "a-b.c", 'say "hi there" x', "f(a[1], {b})", "(a (b) c)", "ab\ncd\nef", "ab\n\ncd", "x  ", "  x",
+           "héllo wörld", "中文 abc 中", "a'b c'd", 'x "unclosed', "one", "éé x", "a\tb", "foo/bar-baz_qux.txt", "http://a.b/c?d=e",
+           "if (x) { y; }", "ab cd\n  ef gh\n\nij"]
+
+READERS = {"vi-find-next-char", "vi-find-next-char-skip", "vi-find-prev-char", "vi-find-prev-char-skip", "vi-char-search",
+           "character-search", "character-search-backward", "vi-goto-mark", "vi-set-mark", "vi-change-char", "vi-replace-chars",
+           "quoted-insert", "vi-set-buffer"}
+
+
+def private_binds(names):
+    """bind every command name to a private sequence \\x1e + 2 letters in the three main keymaps"""
+    binds, seqs = [], {}
+    letters = "abcdefghijklmnopqrstuvwxyz"
+    for i, n in enumerate(sorted(names)):
+        seq = b"\x1e" + bytes([ord(letters[i // 26]), ord(letters[i % 26])])
+        seqs[n] = seq
+        for km in ("emacs", "vi-insert", "vi-command"):
+            binds.append({"km": km, "seq": seq.hex(), "act": n, "macro": False})
+    return binds, seqs
+
+
+def arg_keys(mode, arg):
+    """keys typing the numeric argument `arg` (None = no argument)"""
+    if arg is None:
+        return []
+    if mode == "vi-command":
+        if arg <= 0:
+            return None
+        return [keys(str(arg).encode())]
+    if mode == "emacs":
+        if arg < 0:
+            return [keys(b"\x1b-")] + ([keys(b"\x1b" + str(-arg).encode()[:1])] if arg != -1 else [])
+        return [keys(b"\x1b" + bytes([d])) for d in str(arg).encode()]
+    return None
